@@ -108,7 +108,7 @@ func Run(c *vf.Check) {
 	}
 	jobs = append(jobs, func() { runRFC(c) })
 	vf.Parallel(len(jobs), func(i int) { jobs[i]() })
-	c.Finish("engine E: Pick on every group with the capability under 13 non-constant streams (counter, 6 seeded, all-zero / all-0xff prefixes of 1,3,7 point lengths forcing retries): independent membership (curve equation / x^q=1) and (q-1)P+P=O, same stream => same bytes whatever the receiver held, different seeded streams => different points. "+
+	c.Finish("engine E: Pick on every group with the capability under 13 non-constant streams (counter, 6 seeded, all-zero / all-0xff prefixes of 1,3,7 point lengths forcing retries): independent membership (curve equation / x^q=1) and (q-1)P+P=O, same stream => same bytes whatever the receiver held, UnmarshalFrom(stream) = Pick(stream) on the groups decoding through the shared marshalling helper, different seeded streams => different points. "+
 		"Embed on every group with the capability (and, for the lengths {0,1,2,127,128,254..257,300,EmbedLen-1..EmbedLen+8}, on the quadratic residues of the 3072-bit RFC 3526 prime, EmbedLen 381): every data length 0..EmbedLen+8 x {0x00, 0xff, counter} (+ nil and empty): member, Data() = data truncated to EmbedLen, also after decode(encode(P)) and Clone. Data on crafted members with length field in {EmbedLen-1, EmbedLen, EmbedLen+1, EmbedLen+2, 255}: error iff the field exceeds EmbedLen, else exactly the stored bytes. "+
 		"Hash-to-group on every hashable G1/G2 (and the Ed25519 RFC 9380 suite): messages of length {0,1,32,255,256,300}: member, deterministic, pairwise different; different domain-separation tags => different points; RFC 9380 vectors for edwards25519_XMD:SHA-512_ELL2_RO_ and BLS12381G1/G2_XMD:SHA-256_SSWU_RO_ (kilic, circl, gnark through their custom-DST entry points). "+
 		"non-trivial = data longer than 0 bytes, retry-forcing streams; distinct by (group, operation, input)",
@@ -127,6 +127,17 @@ func runPick(c *vf.Check, g *groups.G) {
 			if why := inGroup(g, p); why != "" {
 				x.Failf(pk+"/non-member", "%s: result %x is not a group member: %s", id, fmod.Enc(p)[:8], why)
 				return
+			}
+			// the documented second way to pick: UnmarshalFrom with a reader that is a cipher.Stream (the groups that
+			// decode through the library's shared marshalling helper) gives the point Pick gives on the same stream
+			switch g.Family {
+			case "ed25519", "ed25519vartime", "p256", "qr512", "residue-r84":
+				u := g.Point()
+				if _, err := u.UnmarshalFrom(streamReader{s.mk()}); err != nil {
+					x.Failf(pk+"/UnmarshalFrom-stream", "%s: UnmarshalFrom(stream) fails: %v", id, err)
+				} else if !u.Equal(p) || !bytes.Equal(fmod.Enc(u), fmod.Enc(p)) {
+					x.Failf(pk+"/UnmarshalFrom-stream", "%s: UnmarshalFrom(stream) gives %x.., Pick on the same stream %x..", id, fmod.Enc(u)[:8], fmod.Enc(p)[:8])
+				}
 			}
 			// same stream, receiver holding another value
 			q := g.Gen().Clone()
@@ -656,4 +667,15 @@ func runRFC(c *vf.Check) {
 			c.Nontrivial(id)
 		}
 	}
+}
+
+// streamReader is a key stream that can also be read from (as an XOF can).
+type streamReader struct{ cipher.Stream }
+
+func (r streamReader) Read(b []byte) (int, error) {
+	for i := range b {
+		b[i] = 0
+	}
+	r.XORKeyStream(b, b)
+	return len(b), nil
 }
